@@ -51,7 +51,13 @@ impl Backend {
         loop {
             let mut line = String::new();
             match self.stdout.read_line(&mut line) {
-                Ok(0) | Err(_) => break,
+                Ok(0) | Err(_) => {
+                    // the backend is gone (killed from outside, out of memory): harness trouble, never a
+                    // reply the client could mistake for a solver's answer
+                    println!("(error \"refsolver internal: the backend z3 process ended\")");
+                    let _ = std::io::stdout().flush();
+                    std::process::exit(3);
+                }
                 Ok(_) => {
                     let t = line.trim();
                     if t == marker || t == format!("\"{}\"", marker) {
